@@ -292,6 +292,7 @@ fn run_one(s: &S01, word: Wd, backend: &WrBackend, ctx: &mut Ctx) {
         let ok = match backend {
             WrBackend::Vec => st == exp,
             WrBackend::Slice { .. } => {
+                ctx.probe_if(st.len() == exp.len() && !exp.is_empty(), "c01.slice_exactly_full");
                 st.len() >= exp.len() && st[..exp.len()] == exp[..] && st[exp.len()..].iter().all(|b| *b == SLICE_FILL)
             }
             _ => true,
@@ -315,6 +316,8 @@ fn run_one(s: &S01, word: Wd, backend: &WrBackend, ctx: &mut Ctx) {
 }
 
 pub struct C01;
+
+fn ctx_unused() {}
 
 pub fn gen_wops(rng: &mut Rng, word: Wd, nops: usize, allow_flush: bool) -> Vec<WOp1> {
     let wbits = word.bits();
@@ -396,7 +399,22 @@ impl Family for C01 {
             _ => rng.usize_range(4, 48),
         };
         let ops = gen_wops(rng, word, nops, true);
-        let cap_words = total_bits_upper(&ops) / word.bits() + 2;
+        // fixed slice: half of the time exactly as many words as the history needs (the last
+        // word of the slice is then written by the close), otherwise with slack
+        let exact_words = {
+            let wb = word.bits();
+            let mut bits = 0usize;
+            for o in &ops {
+                match o {
+                    WOp1::Bits { n, .. } => bits += n,
+                    WOp1::Unary { x } => bits += *x as usize + 1,
+                    WOp1::Flush => bits = bits.div_ceil(wb) * wb,
+                }
+            }
+            bits.div_ceil(wb)
+        };
+        let cap_words = if rng.chance(1, 2) { exact_words } else { total_bits_upper(&ops) / word.bits() + 2 };
+        ctx_unused();
         let backend = match (index / 10) % 5 {
             0 => WrBackend::Rec { refuse_at: None },
             1 => WrBackend::Vec,
@@ -509,6 +527,7 @@ impl Family for C01 {
             "c01.unary_ends_on_boundary",
             "c01.flush_nothing_pending",
             "c01.flush_idempotent_checked",
+            "c01.slice_exactly_full",
         ]
     }
 
